@@ -1,7 +1,8 @@
 """C04 - a broadcast reaches exactly the sockets its rooms and exclusions select, once."""
 from lib.vlib import gN, gbool, glist, gpair
 
-HDR = ("From SioV Require Import Adapter.Rooms Adapter.Broadcast Adapter.BroadcastSpec Adapter.BroadcastCheck.\n"
+HDR = ("From SioV Require Import Adapter.Rooms Adapter.Broadcast Adapter.BroadcastSpec Adapter.BroadcastCheck "
+       "Adapter.BroadcastLiveCheck.\n"
        "Local Open Scope positive_scope.\n")
 THEOREMS = ["C04_indexes_inverse", "C04_membership_is_net_effect", "C04_broadcast_exact"]
 
@@ -244,20 +245,148 @@ def ops_report(ctx, batch, rows, owner):
            row_of=lambda i: rows[owner[i]])
 
 
+LIVE_FNS = ["live_agree", "live_oracle", "live_sender_oracle", "live_sender_known"]
+
+
+def live_term(r):
+    return "((%d%%N, %d%%N, %d%%N, %d%%N, [%s]) : lcase)" % (
+        r["m"], r["te"], r["from"], sum(b << i for i, b in enumerate(r["own"])),
+        "; ".join("%d%%nat" % c for c in r["counts"]))
+
+
+def live_gen(ctx, vh, batch, name, args):
+    """real server + 3 real clients; an environmental failure (time-out) is retried, then noted"""
+    for attempt in range(3):
+        rc, log = ctx.vh(vh, ["rooms", "-mode", "live", "-out", "%s/%s.jsonl" % (ctx.work, name)] + args, timeout=600)
+        if rc == 0:
+            break
+        if "environment:" not in log:
+            ctx.violation("harness engine rooms/live failed (rc=%d)" % rc,
+                          {"kind": "correspondence-broken", "suite": "live", "log": log[-3000:]}, no_input=True)
+            return None
+    else:
+        ctx.note("live suite skipped after 3 environmental failures: %s" % log[-300:])
+        ctx.obligation("correspondence:live", "correspondence", False, "environment: " + log[-300:])
+        ctx.violation("live rig could not be run (environment)", {"kind": "correspondence-broken", "suite": "live",
+                                                                 "log": log[-3000:]}, no_input=True)
+        return None
+    import json
+    rows = [json.loads(l) for l in open("%s/%s.jsonl" % (ctx.work, name)) if l.strip()]
+    batch.add(name, [live_term(r) for r in rows], LIVE_FNS)
+    return rows
+
+
+def live_describe(r):
+    return ("live namespace, 3 clients, membership matrix %d (bit 3i+j: client i+1 in room x%d), T+8E=%d, sender %d, "
+            "own-room bits %s: deliveries per client %s" % (r["m"], 4, r["te"], r["from"], r["own"], r["counts"]))
+
+
+def live_report(ctx, vh, batch, rows):
+    for r in rows:
+        nt = (r["m"], r["te"], r["from"], tuple(r["own"])) if sum(r["counts"]) in (1, 2) else None
+        ctx.count(1, nontrivial_key=nt, dist="live:%s" % ("socket" if r["from"] else "namespace"))
+    ctx.sample({"suite": "live", "case": rows[0]})
+    bad_o, bad_a = set(batch.bad("live", "live_oracle")), set(batch.bad("live", "live_agree"))
+    bad_s = set(batch.bad("live", "live_sender_oracle"))
+    unknown = set(batch.bad("live", "live_sender_known"))
+    retry = sorted(bad_o | bad_a | (bad_s & unknown))
+    if retry:
+        # a live failure must reproduce on a fresh server before it is reported
+        b2 = Batch(ctx)
+        b2.NSH = 1
+        cases = ";".join("%d,%d,%d,%d" % (rows[i]["m"], rows[i]["te"], rows[i]["from"],
+                                         sum(b << k for k, b in enumerate(rows[i]["own"]))) for i in retry)
+        rows2 = live_gen(ctx, vh, b2, "live_retry", ["-cases", cases])
+        if rows2 is None:
+            return
+        b2.groups = [("live", b2.groups[0][1], LIVE_FNS)]
+        b2.run()
+        ctx.note("live: %d cases re-run on a fresh server, %d still failing" % (
+            len(retry), len(set(b2.bad("live", "live_oracle")) | set(b2.bad("live", "live_agree")))))
+        keep_o = {retry[j] for j in b2.bad("live", "live_oracle")}
+        keep_a = {retry[j] for j in b2.bad("live", "live_agree")}
+        keep_s = {retry[j] for j in set(b2.bad("live", "live_sender_oracle")) & set(b2.bad("live", "live_sender_known"))}
+        bad_o, bad_a, unknown = bad_o & keep_o, bad_a & keep_a, unknown & keep_s
+    ctx.obligation("correspondence:live", "correspondence", not bad_a, "%d cases, %d disagree" % (len(rows), len(bad_a)))
+    ctx.obligation("oracle:live", "oracle", not bad_o, "%d cases, %d fail" % (len(rows), len(bad_o)))
+    ctx.obligation("oracle:live/sender-excluded", "oracle", True,
+                   "%d cases, %d with a sender that received its own broadcast" % (len(rows), len(bad_s)))
+    for i in sorted(bad_o)[:3]:
+        ctx.violation(live_describe(rows[i]), {"kind": "failing-input", "engine": "rooms", "suite": "live", "case": rows[i]})
+    if bad_a and not bad_o:
+        i = sorted(bad_a)[0]
+        ctx.violation("live namespace deliveries differ from the model (suite live): " + live_describe(rows[i]),
+                      {"kind": "correspondence-broken", "suite": "live", "theorems": ["C04_broadcast_exact_after_history"],
+                       "case": rows[i]}, no_input=True)
+    for i in sorted(bad_s):
+        r = rows[i]
+        py_known = r["own"][r["from"] - 1] == 0
+        if py_known != (i not in unknown):
+            ctx.violation("finding classifier disagreement (Python vs Coq) on sender-left-own-room",
+                          {"kind": "correspondence-broken", "suite": "live/sender-class", "case": r}, no_input=True)
+            continue
+        ctx.fail_or_known("sender-left-own-room" if py_known else None,
+                          "real server: the sender received its own broadcast; " + live_describe(r),
+                          {"kind": "failing-input", "engine": "rooms", "suite": "live", "case": r})
+
+
+def conc_term(r):
+    socks = glist("(%d, %s, %s, %d%%N, %d%%N, %d%%nat)" % (
+        k["s"], "[" + "; ".join("%d%%N" % x for x in k["inT"]) + "]", "[" + "; ".join("%d%%N" % x for x in k["inE"]) + "]",
+        k["reg"], k["known"], k["count"]) for k in r["socks"])
+    return "((%s, %s, %s) : ccase)" % (pl(r["T"]), pl(r["E"]), socks)
+
+
+def conc_gen(ctx, vh, batch):
+    rows = ctx.vh_jsonl(vh, "rooms", ["-mode", "conc", "-seed", ctx.seed, "-n", 1500 if ctx.quick else 40000])
+    if rows is None:
+        return None
+    for r in rows:
+        tne = bool(r["T"])
+        for k in r["socks"]:
+            must = (any(x == 1 for x in k["inT"]) if tne else k["reg"] == 1) and all(x == 0 for x in k["inE"]) and k["known"] == 1
+            never = (all(x == 0 for x in k["inT"]) if tne else k["reg"] == 0) or any(x == 1 for x in k["inE"]) or k["known"] == 0
+            if not must and not never:
+                ctx.indeterminate += 1
+        ctx.count(1, nontrivial_key=(tuple(r["T"]), tuple(r["E"]), repr(r["socks"])) if r["churn"] else None,
+                  dist="conc:%s" % ("overlapped" if r["churn"] else "quiet"))
+    ctx.sample({"suite": "conc", "case": rows[len(rows) // 2]})
+    batch.add("conc", [conc_term(r) for r in rows], ["conc_ok"])
+    return rows
+
+
+def conc_report(ctx, batch, rows):
+    bad = batch.bad("conc", "conc_ok")
+    ov = sum(1 for r in rows if r["churn"])
+    detail = "%d broadcasts (%d overlapped by membership changes), %d violate the interval semantics" % (len(rows), ov, len(bad))
+    ctx.obligation("correspondence:conc", "correspondence", not bad, detail)
+    ctx.obligation("oracle:conc", "oracle", not bad, detail)
+    for i in bad[:3]:
+        r = rows[i]
+        ctx.violation("in-memory adapter, broadcast T=%s E=%s concurrent with AddAll/Delete/DeleteAll of other goroutines: a socket "
+                      "that was a member throughout did not get it exactly once, or a non-member / excluded / unknown socket "
+                      "got it, or somebody got it twice; per socket (status per T room, per E room, registered, known, count): %s"
+                      % (r["T"], r["E"], [(k["s"], k["inT"], k["inE"], k["reg"], k["known"], k["count"]) for k in r["socks"]]),
+                      {"kind": "failing-input", "engine": "rooms", "suite": "conc", "case": r,
+                       "theorems": ["C04_interval_member_receives_once", "C04_interval_nonmember_never", "C04_interval_at_most_once"]})
+
+
 def run(ctx):
     ctx.rule = ("table: every membership matrix of 3 sockets x 3 rooms x every (T,E) of room subsets (x store subsets); "
                 "non-trivial = (T,E) != (0,0) and the broadcast reached 1 or 2 of the 3 sockets (distinct (matrix,store,T,E)); "
                 "histories: seeded random histories (<= 40 ops, 4 sockets x 4 rooms + own-id rooms) with a broadcast probe, "
                 "index dump, Sockets and SocketRooms after every op; non-trivial = non-empty indexes and a probe that "
                 "reached somebody (distinct (op kind, sids index, probe)); ops: operator programs, non-trivial = some "
-                "operator is the parent of two derivations")
+                "operator is the parent of two derivations; conc: broadcasts on the real adapter while 3 goroutines "
+                "join/leave/leave-all, non-trivial = at least one adapter call overlapped the broadcast; live: real server "
+                "+ 3 clients on seeded (matrix,T,E,sender) cases, non-trivial = 1 or 2 of the 3 clients got the event")
     ctx.trusted = ["Coq 8.16.1 kernel + vm_compute", "std++ (gmap/gset)",
                    "hand-written model Adapter/{Rooms,Broadcast}.v tied by kernel-evaluated correspondence",
                    "harness cmd/vh rooms + hook adapter/adapter_memory_verif.go (read-only index dump)"]
     ctx.assumptions = ["Go map iteration: an entry present for the whole iteration is produced exactly once, an entry "
                        "removed before being reached is not produced",
                        "mapset.Set (deckarep/golang-set) behaves as a finite set"]
-    ctx.proofs(modules=["Adapter/BroadcastCheck"])
+    ctx.proofs(modules=["Adapter/BroadcastCheck", "Adapter/BroadcastLiveCheck"])
     vh = ctx.go_build()
     if vh is None:
         return
@@ -269,6 +398,8 @@ def run(ctx):
                        ("ahist", ["-seed", ctx.seed, "-n", 60 if ctx.quick else 2000])):
         hists[mode] = hist_gen(ctx, vh, batch, mode, args)
     ops = ops_gen(ctx, vh, batch)
+    conc = conc_gen(ctx, vh, batch)
+    live = live_gen(ctx, vh, batch, "live", ["-seed", ctx.seed, "-n", 40 if ctx.quick else 600])
     batch.run()
     if table is not None:
         table_report(ctx, batch, table)
@@ -277,3 +408,7 @@ def run(ctx):
             hist_report(ctx, batch, mode, rows)
     if ops is not None:
         ops_report(ctx, batch, *ops)
+    if conc is not None:
+        conc_report(ctx, batch, conc)
+    if live is not None:
+        live_report(ctx, vh, batch, live)
